@@ -1,17 +1,17 @@
 CONSTANTS
   NumBlocks = {5, 50, 500}
-  CallBlocks = {500}
+  CallBlocks = {}
   LogBlocks = {}
-  Extra = FALSE
-  MaxLen = 3
-  Latests = {627, 1000}
+  Extra = TRUE
+  MaxLen = 4
+  Latests = {0, 627}
   Rule = 127
   Seed = TRUE
   Guard = TRUE
-  Tendermint = FALSE
+  Tendermint = TRUE
   ZeroOk = TRUE
   EarliestLow = TRUE
 INIT Init
 NEXT Next
-INVARIANTS ArchiveMonotone
+INVARIANTS Emit
 CHECK_DEADLOCK FALSE
